@@ -775,7 +775,7 @@ class TdmsChannel(object):
             stop = self._length + stop
 
         # Check for empty ranges
-        if stop == start:
+        if self._length == 0 or stop == start:
             return np.empty((0, ), dtype=self.dtype)
         if step > 0 and (stop < start or start >= self._length or stop < 0):
             return np.empty((0,), dtype=self.dtype)
